@@ -9,7 +9,7 @@ Open Scope N_scope.
 
 (* the kinds whose parsed value is the written value itself *)
 Definition sw_plain (s : swrec) : bool :=
-  match s with SMpFlow _ _ => false | SPacketIn _ _ _ _ _ _ None => false | _ => true end.
+  match s with SMpFlow _ _ => false | SPacketIn _ _ _ _ _ _ None => false | SHello _ => false | _ => true end.
 Definition sw_payload_shaped (s : swrec) : Prop :=
   match s with SPacketIn _ _ _ _ _ _ (Some e) => shaped e = true | _ => True end.
 
